@@ -236,6 +236,30 @@ type polOp struct {
 	run  func(in *polInst)
 }
 
+// The marshal and evaluation closures answer as a function of exactly what they are handed, so that
+// "Marshal / Evaluate return that closure's result" can be checked as Marshal(in...) == closure(in...).
+func c14Marshaler(in ...any) error {
+	if len(in) == 2 && in[0] == "OR" && in[1] == "m" {
+		return errM
+	}
+	return fmt.Errorf("marshal closure saw %d argument(s): %s", len(in), describeArgs(in))
+}
+
+func c14Evaluator(x ...any) (any, error) {
+	if len(x) == 2 && x[0] == 1 && x[1] == 2 {
+		return "EVALUATED", nil
+	}
+	return "EVALUATED:" + describeArgs(x), nil
+}
+
+func describeArgs(in []any) string {
+	p := make([]string, len(in))
+	for i, v := range in {
+		p[i] = fmt.Sprintf("%T:%v", v, v)
+	}
+	return "[" + strings.Join(p, " ") + "]"
+}
+
 func c14PolOps(isCond bool) []polOp {
 	var ops []polOp
 	add := func(n string, f func(in *polInst)) { ops = append(ops, polOp{n, f}) }
@@ -245,8 +269,8 @@ func c14PolOps(isCond bool) []polOp {
 	eqNil := func(a, b any) error { return nil }
 	eqErr := func(a, b any) error { return errE }
 	unm := func(...any) ([]any, error) { return []any{"UNMARSHALED"}, nil }
-	mar := func(...any) error { return errM }
-	evl := func(x ...any) (any, error) { return "EVALUATED", nil }
+	mar := c14Marshaler
+	evl := c14Evaluator
 	if isCond {
 		add("SetValidityPolicy(accept)", func(in *polInst) { in.cd.SetValidityPolicy(vAccept); in.vpf = 1 })
 		add("SetValidityPolicy(reject)", func(in *polInst) { in.cd.SetValidityPolicy(vReject); in.vpf = 2 })
@@ -302,15 +326,28 @@ func c14PolMachine(c *Ctx, kind string) *Machine[*polInst] {
 	deco := strings.HasSuffix(kind, "+decorated")
 	kind = strings.TrimSuffix(kind, "+decorated")
 	isCond := strings.HasPrefix(kind, "CONDITION")
-	builtinValid := kind != "CONDITION-invalid"
+	builtinValid := !strings.HasPrefix(kind, "CONDITION-")
 	ops := c14PolOps(isCond)
-	build := func() *polInst {
-		if kind == "CONDITION-invalid" {
-			// a Condition the built-in validity rules reject (no keyword): an installed closure is the sole judge
-			return &polInst{isCond: true, cd: stackage.Cond("", stackage.Eq, "val"), ct: stackage.Cond("", stackage.Eq, "val"), kind: kind}
+	// Conditions the built-in validity rules reject (an installed closure is then the sole judge): no
+	// keyword, no operator, no expression, nothing at all
+	mkCond := func() stackage.Condition {
+		switch kind {
+		case "CONDITION-invalid":
+			return stackage.Cond("", stackage.Eq, "val")
+		case "CONDITION-no-operator":
+			return stackage.Cond("kw", nil, "val")
+		case "CONDITION-no-expression":
+			return stackage.Cond("kw", stackage.Eq, nil)
+		case "CONDITION-init-only":
+			var c stackage.Condition
+			c.Init()
+			return c
 		}
+		return stackage.Cond("kw", stackage.Eq, "val")
+	}
+	build := func() *polInst {
 		if isCond {
-			return &polInst{isCond: true, cd: stackage.Cond("kw", stackage.Eq, "val"), ct: stackage.Cond("kw", stackage.Eq, "val"), kind: kind}
+			return &polInst{isCond: true, cd: mkCond(), ct: mkCond(), kind: kind}
 		}
 		if deco {
 			mk := func() stackage.Stack {
@@ -370,7 +407,7 @@ func c14PolMachine(c *Ctx, kind string) *Machine[*polInst] {
 						bad("cond-string", "String() is empty although the validity closure accepts the Condition")
 					}
 				}
-				eq := in.cd.IsEqual(stackage.Cond(in.ct.Keyword(), stackage.Eq, "val"))
+				eq := in.cd.IsEqual(mkCond())
 				wantEq := map[int]error{0: nil, 1: nil, 2: errE}[in.eqf]
 				if got := in.cd.IsEqual(in.cd); got != wantEq {
 					bad("cond-isequal-self", "IsEqual(itself)=%v want %v (equality closure state %d)", got, wantEq, in.eqf)
@@ -396,6 +433,13 @@ func c14PolMachine(c *Ctx, kind string) *Machine[*polInst] {
 				if in.evl {
 					if ev != "EVALUATED" || eerr != nil {
 						bad("cond-evaluate", "Evaluate()=%v,%v want the evaluator's result", ev, eerr)
+					}
+					for _, args := range [][]any{{}, {[]any{1, 2}}, {nil}, {"x", 3.5, in.cd}} {
+						got, _ := in.cd.Evaluate(args...)
+						if want, _ := c14Evaluator(args...); got != want {
+							bad("cond-evaluate-arguments", "Evaluate(%s)=%v want what the evaluator answers for these arguments: %v", describeArgs(args[:min(len(args), 2)]), got, want)
+							break
+						}
 					}
 				} else if eerr == nil || ev != nil {
 					bad("cond-evaluate", "Evaluate()=%v,%v without evaluator, want (nil, error)", ev, eerr)
@@ -458,6 +502,14 @@ func c14PolMachine(c *Ctx, kind string) *Machine[*polInst] {
 				if merr != errM || s.Len() != n {
 					bad("marshal", "Marshal()=%v Len %d->%d, want the marshal closure's error and no change", merr, n, s.Len())
 				}
+				// the closure's result for exactly the caller's arguments, whatever their shape
+				for _, args := range [][]any{{[]any{"OR", "m"}}, {[]any{}}, {[]any{[]any{"OR", "m"}}}, {"OR"}, {nil}, {[]any{"OR", "m"}, "tail"}} {
+					got, want := st.Marshal(args...), c14Marshaler(args...)
+					if got == nil || got.Error() != want.Error() || s.Len() != n {
+						bad("marshal-arguments", "Marshal(%s)=%v Len %d->%d, want what the closure answers for these arguments: %v", describeArgs(args), got, n, s.Len(), want)
+						break
+					}
+				}
 			} else {
 				if merr != nil || s.Len() != n+1 {
 					bad("marshal", "built-in Marshal()=%v Len %d->%d, want nil and one new element", merr, n, s.Len())
@@ -486,7 +538,7 @@ func init() {
 		c.States.Add(int64(len(cases)))
 		c.Exhaustive = true
 		kinds := append([]string{}, kindNames...)
-		kinds = append(kinds, "CONDITION", "CONDITION-invalid", "BASIC+decorated", "AND+decorated", "LIST+decorated")
+		kinds = append(kinds, "CONDITION", "CONDITION-invalid", "CONDITION-no-operator", "CONDITION-no-expression", "CONDITION-init-only", "BASIC+decorated", "AND+decorated", "LIST+decorated")
 		for _, k := range kinds {
 			st := BFS(c, c14PolMachine(c, k))
 			c.Exhaustive = c.Exhaustive && st.Complete
